@@ -26,6 +26,10 @@ def norm_written(node):
             "level": node.task_level.as_list(),
         }
     c = dict(node.contents)
+    if c.get("message_type") == "eliot:stdlib" and "nid" not in c and isinstance(c.get("message"), str) and " nid=" in c["message"]:
+        # messages logged through the standard library bridge carry their node id in the text
+        tail = c["message"].rsplit(" nid=", 1)[1]
+        c["nid"] = int(tail) if tail.lstrip("-").isdigit() else tail
     return {
         "kind": "message",
         "type": c.get("message_type"),
